@@ -248,7 +248,10 @@ class _InstallWrapper(IpcCommand):
     def __init__(self, *args, **kwargs):
         super().__init__(*args, **kwargs)
 
-        # initialize file/dir creation coroutines
+        self._init_coroutines()
+
+    def _init_coroutines(self):
+        """Initialize file/dir creation coroutines."""
         self.install = self._install().send
         self.install_dirs = self._install_dirs().send
         self.install_symlinks = self._install_symlinks().send
@@ -260,6 +263,10 @@ class _InstallWrapper(IpcCommand):
         self.parser.set_defaults(
             insoptions=self.insoptions_default, diroptions=self.diroptions_default
         )
+        # helper objects serve many requests: a coroutine that raised is
+        # finished, and a fallback to `install` chosen for an earlier request
+        # must not stick
+        self._init_coroutines()
         args = super().parse_args(*args, **kwargs)
         self.parse_install_options()
         return args
